@@ -23,17 +23,20 @@ def run(ctx: Ctx) -> int:
             jobs.append(Job(STEP, fn, timeout=1800, name=f"{fn}[two variables,nn=1,self=1,dummy=1,incl=1]",
                             env={"VERIF_C09_NN": 1, "VERIF_C09_SELF": 1, "VERIF_C09_DUMMY": 1, "VERIF_C09_INCL": 1, "VERIF_C09_NV": 2}))
     jobs.append(Job(STEP, "h_init", timeout=ctx.pick(120, 400)))
-    jobs.append(Job(STEP, "h_lattice", timeout=ctx.pick(200, 900), env={"VERIF_C09_NV": 2}))
-    k = ctx.pick(3, 5)
+    jobs.append(Job(STEP, "h_lattice_live", timeout=ctx.pick(200, 900)))
+    jobs.append(Job(STEP, "h_lattice_assign", timeout=ctx.pick(200, 900)))
+    k, r = ctx.pick((4, 3), (6, 4))
     for p in range(6):
-        jobs.append(Job(SCHED, "h_schedule", timeout=ctx.pick(200, 1500), name=f"schedule[program={p},K={k}]",
-                        env={"VERIF_C09_PROG": p, "VERIF_C09_K": k}))
+        for fn in ("h_schedule_bwd", "h_schedule_fwd"):
+            jobs.append(Job(SCHED, fn, timeout=ctx.pick(150, 1500), name=f"{fn}[program={p},K={k},R={r}]",
+                            env={"VERIF_C09_PROG": p, "VERIF_C09_K": k, "VERIF_C09_R": r}))
+        jobs.append(Job(SCHED, "h_schedule_rev", timeout=100, name=f"h_schedule_rev[program={p}]", env={"VERIF_C09_PROG": p}))
     ctx.functions_encoded = [
         "cfg/analysis.py: ForwardAnalysis.run, BackwardAnalysis.run (loop bodies and initialisation sliced from the current source; queue.pop() made a parameter / symbolic choice), "
         "LivenessAnalysis.{eq,join,apply_bb,initial}, AssignmentAnalysis.{__init__,initial,join,apply_bb,run_unpacked}",
         "cfg/cfg.py: CFG.analyze; cfg/bb.py: BB, VariableStats, compute_variable_stats; cfg/builder.py: CFGBuilder (concrete, to produce the graphs of the schedule obligations)"]
     ctx.bounds = {"step": f"neighbours {list(nns)} x self-loop x dummy edge (in and out) x include_unreachable; one variable (separable frameworks)" + ("" if ctx.quick else "; one two-variable configuration"),
-                  "schedule": f"6 programs (7-13 blocks), first {k} picks of each of the two worklists symbolic (4 choices each), remaining picks lowest index"}
+                  "schedule": f"6 programs (7-13 blocks); per program and per worklist (backward liveness / forward assignment) the first {k} picks are symbolic, each among the {r} lowest-indexed queued blocks, remaining picks lowest index; plus the two extreme concrete schedules"}
     ctx.outside_claim = ["blocks with more than %d ordinary neighbours" % max(nns), "termination is observed (400-pop cap), not proved",
                          "inout variables' initial liveness", "`maybe_ass_before_entry` different from `ass_before_entry` (nested functions)"]
     ctx.assumptions = ["textbook: for a distributive bit-vector framework the least/greatest solution of the equations equals the meet-over-paths solution",
